@@ -103,3 +103,12 @@ def run(prog, chk):
                      "no assignment `cif_version = 1` in cif_parse_internal is guarded by a match of the token with the %d-character "
                      "prefix common to all CIF version comments: when the provisional version is 2 (prefer_cif2 positive, encoding "
                      "forced) a `#\\#CIF_1.1` comment no longer selects CIF 1.1" % PREFIX_LEN)
+
+    r4 = chk.rule("R4-stray-bom-reported", "every expansion of the per-character validation macro reports U+FEFF (and the other "
+                  "non-characters) as CIF_DISALLOWED_CHAR in CIF 2.0 as well as CIF 1.1 mode, and accepts ordinary characters: the "
+                  "macro is evaluated over the CFG for chosen code units (a byte-order mark is accepted only as the very first "
+                  "character, which cif_parse_internal consumes before scanning starts)", primary=False, floor=5)
+    from .. import chareval
+    if chareval.rule(prog, r4) < 5:
+        raise Broken("fewer than 5 expansions of SCAN_UCHAR")
+
